@@ -1,3 +1,4 @@
+pub mod builder;
 pub mod cache;
 pub mod client;
 pub mod server;
@@ -12,6 +13,7 @@ pub fn scenario_by_name(name: &str) -> Option<Arc<dyn Scenario>> {
     let s: Arc<dyn Scenario> = match name {
         "client" => Arc::new(client::ClientScn),
         "cache" => Arc::new(cache::CacheScn),
+        "builder" => Arc::new(builder::BuilderScn),
         "server" => Arc::new(server::ServerScn),
         "tsig" => Arc::new(tsig::TsigScn),
         "zone_isolation" => Arc::new(zonestore::IsolationScn),
@@ -32,6 +34,11 @@ pub fn check_spec(property: &str) -> Option<CheckSpec> {
             property: "C15",
             level: "exploration",
             scenarios: vec![(Arc::new(client::ClientScn), 60_000, 3_000_000)],
+        },
+        "C02" => CheckSpec {
+            property: "C02",
+            level: "fault_enumeration",
+            scenarios: vec![(Arc::new(builder::BuilderScn), 1_500, 60_000)],
         },
         "C08" => CheckSpec {
             property: "C08",
